@@ -45,8 +45,25 @@ def collect(term, ty, n, t, c, owners, counts, src="slice"):
     return collect_harness("c05", term, ty, src, n, t, c, owners, counts, count_calls=True, extra_post=post, tag="calls")
 
 
+def compose(ty, opname, n=3, src="slice"):
+    """closure composition of every (Par type, transformation) pair: per-stage call counters in sequential mode
+    (value-dependent filters on symbolic data, so swapped / repeated / skipped stage evaluations are visible)"""
+    from props.c12 import OPS
+    p = Pipeline(src, chain_for(ty) + [OPS[opname]], count_calls=True)
+    body = input_decl(n, tagged=True) + "    model::begin_unscheduled(2);\n"
+    body += terminal_code(p, ".num_threads(1)", "count", n)
+    body += all_stages(n)
+    body += "    kani::cover!(exp(0, 0) == 1);\n"
+    name = cfg_name("c05_compose", ty, opname, src, f"n{n}")
+    return H(name, body, {"terminal": "count", "type": ty, "then": opname, "src": src, "n": n, "threads": 1, "schedule": "sequential mode",
+                          "pipeline": p.descr()}, unwind=n + 3, weight=4)
+
+
 def harnesses(tier, seed):
     hs = []
+    for ty in ("E", "M", "F", "MF", "FM", "FMF", "FL", "FLF"):
+        for opname in ("map", "filter", "filter_map", "flat_map"):
+            hs.append(compose(ty, opname, 3 if tier == "quick" else 4))
     if tier == "quick":
         hs += [scalar("count", "MF", 3, 2, 1), scalar("count", "FMF", 3, 2, 2), scalar("reduce_xor", "FLF", 3, 2, 1),
                scalar("find", "MF", 3, 2, 2), scalar("find", "FMF", 3, 2, 1), scalar("reduce_add", "FM", 3, 2, 2)]
@@ -54,7 +71,8 @@ def harnesses(tier, seed):
             for owners in ([1, 0], [0, 0]):
                 for k in cvs:
                     hs.append(collect("collect_vec", ty, 2, 2, 1, owners, k))
-            hs.append(collect("collect_x", ty, 2, 2, 1, [1, 0], cvs[-1]))
+            if ty != "FLF":  # the flat_map col_x kernel costs ~5 min per query (see C07); thorough tier only
+                hs.append(collect("collect_x", ty, 2, 2, 1, [1, 0], cvs[-1]))
             hs.append(collect("collect_vec", ty, 2, 2, 1, None, cvs[-1], src="counting"))
     else:
         for ty in ("M", "F", "MF", "FM", "FMF", "FL", "FLF"):
